@@ -1,0 +1,436 @@
+// Verification hooks. This module is only compiled with `--cfg seed_verif`
+// and has no effect unless `SEED_VERIF_TRACE` names a file to write to.
+//
+// Everything here is observation only: tokens, the parsed program and
+// semantic events are written as one JSON object per line. No dependency is
+// added; the JSON is written by hand.
+
+use std::cell::RefCell;
+use std::env;
+use std::fs::File;
+use std::io::BufWriter;
+use std::io::Write;
+
+#[allow(clippy::wildcard_imports)]
+use crate::ast::*;
+use crate::lexer::LexError;
+use crate::lexer::Lexer;
+use crate::lexer::Token;
+use crate::parser::ExprParser;
+
+thread_local! {
+    static SINK: RefCell<Option<BufWriter<File>>> = const { RefCell::new(None) };
+}
+
+pub fn init() {
+    if let Ok(path) = env::var("SEED_VERIF_TRACE") {
+        if let Ok(f) = File::create(path) {
+            SINK.with(|s| *s.borrow_mut() = Some(BufWriter::new(f)));
+        }
+    }
+    let prev = std::panic::take_hook();
+    std::panic::set_hook(Box::new(move |info| {
+        let msg = format!("{info}");
+        line(&format!("{{\"ev\":\"panic\",\"msg\":{}}}", jstr(&msg)));
+        flush();
+        prev(info);
+    }));
+}
+
+pub fn enabled() -> bool {
+    SINK.with(|s| s.borrow().is_some())
+}
+
+// `mode` is the value of `SEED_VERIF_MODE`: `parse` stops after the dumps.
+pub fn parse_only() -> bool {
+    matches!(env::var("SEED_VERIF_MODE"), Ok(m) if m == "parse")
+}
+
+pub fn line(s: &str) {
+    SINK.with(|k| {
+        if let Some(w) = k.borrow_mut().as_mut() {
+            let _ = w.write_all(s.as_bytes());
+            let _ = w.write_all(b"\n");
+        }
+    });
+}
+
+pub fn flush() {
+    SINK.with(|k| {
+        if let Some(w) = k.borrow_mut().as_mut() {
+            let _ = w.flush();
+        }
+    });
+}
+
+pub fn exit(code: i32) {
+    line(&format!("{{\"ev\":\"exit\",\"code\":{code}}}"));
+    flush();
+}
+
+// JSON helpers.
+
+pub fn jstr(s: &str) -> String {
+    let mut o = String::from("\"");
+    for c in s.chars() {
+        match c {
+            '"' => o.push_str("\\\""),
+            '\\' => o.push_str("\\\\"),
+            '\n' => o.push_str("\\n"),
+            '\r' => o.push_str("\\r"),
+            '\t' => o.push_str("\\t"),
+            c if (c as u32) < 0x20 => {
+                o.push_str(&format!("\\u{:04x}", c as u32));
+            },
+            c => o.push(c),
+        }
+    }
+    o.push('"');
+    o
+}
+
+pub fn jbytes(bs: &[u8]) -> String {
+    let parts: Vec<String> = bs.iter().map(|b| format!("{b}")).collect();
+    format!("[{}]", parts.join(","))
+}
+
+fn jloc(loc: &Location) -> String {
+    format!("[{},{}]", loc.0, loc.1)
+}
+
+fn jbool(b: bool) -> &'static str {
+    if b { "true" } else { "false" }
+}
+
+// Token dump: the complete token stream as the parser will receive it.
+
+pub fn dump_tokens(src: &str) {
+    if !enabled() {
+        return;
+    }
+    let lexer = Lexer::new(src);
+    for item in lexer {
+        match item {
+            Ok((start, tok, end)) => {
+                line(&format!(
+                    "{{\"ev\":\"tok\",{},\"l\":{},\"c\":{},\"el\":{},\"ec\":{}}}",
+                    jtoken(&tok), start.0, start.1, end.0, end.1,
+                ));
+            },
+            Err(e) => {
+                line(&jlexerr(&e));
+                break;
+            },
+        }
+    }
+    line("{\"ev\":\"tokend\"}");
+}
+
+fn jtoken(t: &Token) -> String {
+    match t {
+        Token::Ident(s) =>
+            format!("\"k\":\"Ident\",\"text\":{}", jbytes(s.as_bytes())),
+        Token::IntLiteral(n) =>
+            format!("\"k\":\"IntLiteral\",\"n\":\"{n}\""),
+        Token::StrLiteral(s) =>
+            format!("\"k\":\"StrLiteral\",\"s\":{}", jbytes(s.as_bytes())),
+        Token::InterpStrLiteral(s, slots) => {
+            let sl: Vec<String> =
+                slots.iter().map(|(a, b)| format!("[{a},{b}]")).collect();
+            format!(
+                "\"k\":\"InterpStrLiteral\",\"s\":{},\"slots\":[{}]",
+                jbytes(s.as_bytes()),
+                sl.join(","),
+            )
+        },
+        t => format!("\"k\":\"{t:?}\""),
+    }
+}
+
+pub fn jlexerr(e: &LexError) -> String {
+    let ch = |c: &char| {
+        let mut buf = [0u8; 4];
+        jbytes(c.encode_utf8(&mut buf).as_bytes())
+    };
+    match e {
+        LexError::Unexpected(loc, c) => format!(
+            "{{\"ev\":\"lexerr\",\"k\":\"Unexpected\",\"l\":{},\"c\":{},\"ch\":{}}}",
+            loc.0, loc.1, ch(c),
+        ),
+        LexError::IntOverflow(loc, raw) => format!(
+            "{{\"ev\":\"lexerr\",\"k\":\"IntOverflow\",\"l\":{},\"c\":{},\"ch\":{}}}",
+            loc.0, loc.1, jbytes(raw.as_bytes()),
+        ),
+        LexError::UnescapedDollar(loc) => format!(
+            "{{\"ev\":\"lexerr\",\"k\":\"UnescapedDollar\",\"l\":{},\"c\":{},\"ch\":[]}}",
+            loc.0, loc.1,
+        ),
+        LexError::InvalidInterpolationStart(loc, c) => format!(
+            "{{\"ev\":\"lexerr\",\"k\":\"InvalidInterpolationStart\",\"l\":{},\"c\":{},\"ch\":{}}}",
+            loc.0, loc.1, ch(c),
+        ),
+        LexError::InvalidEscapeChar(loc, c) => format!(
+            "{{\"ev\":\"lexerr\",\"k\":\"InvalidEscapeChar\",\"l\":{},\"c\":{},\"ch\":{}}}",
+            loc.0, loc.1, ch(c),
+        ),
+        LexError::InvalidHexChar(loc, c) => format!(
+            "{{\"ev\":\"lexerr\",\"k\":\"InvalidHexChar\",\"l\":{},\"c\":{},\"ch\":{}}}",
+            loc.0, loc.1, ch(c),
+        ),
+    }
+}
+
+// AST dump.
+
+pub fn dump_ast(prog: &Prog) {
+    if !enabled() {
+        return;
+    }
+    let Prog::Body{stmts} = prog;
+    line(&format!("{{\"ev\":\"ast\",\"body\":{}}}", jblock(stmts)));
+}
+
+fn jblock(b: &Block) -> String {
+    let parts: Vec<String> = b.iter().map(jstmt).collect();
+    format!("[{}]", parts.join(","))
+}
+
+fn jop(op: &BinaryOp) -> &'static str {
+    match op {
+        BinaryOp::Sum => "+",
+        BinaryOp::Sub => "-",
+        BinaryOp::Mul => "*",
+        BinaryOp::Div => "/",
+        BinaryOp::Mod => "%",
+        BinaryOp::And => "&&",
+        BinaryOp::Or => "||",
+        BinaryOp::Eq => "==",
+        BinaryOp::Ne => "!=",
+        BinaryOp::Gt => ">",
+        BinaryOp::Gte => ">=",
+        BinaryOp::Lt => "<",
+        BinaryOp::Lte => "<=",
+        BinaryOp::RefEq => "===",
+        BinaryOp::RefNe => "!==",
+    }
+}
+
+fn jstmt(s: &Stmt) -> String {
+    match s {
+        Stmt::Block{block} =>
+            format!("{{\"t\":\"block\",\"body\":{}}}", jblock(block)),
+        Stmt::Expr{expr} =>
+            format!("{{\"t\":\"expr\",\"e\":{}}}", jexpr(expr)),
+        Stmt::Declare{lhs, rhs} => format!(
+            "{{\"t\":\"declare\",\"lhs\":{},\"rhs\":{}}}",
+            jexpr(lhs), jexpr(rhs),
+        ),
+        Stmt::Assign{lhs, rhs} => format!(
+            "{{\"t\":\"assign\",\"lhs\":{},\"rhs\":{}}}",
+            jexpr(lhs), jexpr(rhs),
+        ),
+        Stmt::OpAssign{lhs, op, op_loc, rhs} => format!(
+            "{{\"t\":\"opassign\",\"lhs\":{},\"op\":\"{}\",\"oploc\":{},\"rhs\":{}}}",
+            jexpr(lhs), jop(op), jloc(op_loc), jexpr(rhs),
+        ),
+        Stmt::If{branches, else_stmts} => {
+            let bs: Vec<String> =
+                branches
+                    .iter()
+                    .map(|Branch{cond, stmts}| format!(
+                        "{{\"cond\":{},\"body\":{}}}",
+                        jexpr(cond), jblock(stmts),
+                    ))
+                    .collect();
+            let els =
+                match else_stmts {
+                    Some(b) => format!(
+                        "{{\"some\":true,\"body\":{}}}", jblock(b),
+                    ),
+                    None => "{\"some\":false,\"body\":[]}".to_string(),
+                };
+            format!(
+                "{{\"t\":\"if\",\"branches\":[{}],\"els\":{}}}",
+                bs.join(","), els,
+            )
+        },
+        Stmt::While{cond, stmts} => format!(
+            "{{\"t\":\"while\",\"cond\":{},\"body\":{}}}",
+            jexpr(cond), jblock(stmts),
+        ),
+        Stmt::For{lhs, iter, stmts} => format!(
+            "{{\"t\":\"for\",\"lhs\":{},\"iter\":{},\"body\":{}}}",
+            jexpr(lhs), jexpr(iter), jblock(stmts),
+        ),
+        Stmt::Break{loc} =>
+            format!("{{\"t\":\"break\",\"loc\":{}}}", jloc(loc)),
+        Stmt::Continue{loc} =>
+            format!("{{\"t\":\"continue\",\"loc\":{}}}", jloc(loc)),
+        Stmt::Func{name: (name, loc), args, collect_args, stmts} => format!(
+            "{{\"t\":\"fn\",\"name\":{},\"nameloc\":{},\"params\":{},\"collect\":{},\"body\":{}}}",
+            jbytes(name.as_bytes()),
+            jloc(loc),
+            jexprs(args),
+            jbool(*collect_args),
+            jblock(stmts),
+        ),
+        Stmt::Return{loc, expr} => format!(
+            "{{\"t\":\"return\",\"loc\":{},\"e\":{}}}",
+            jloc(loc), jexpr(expr),
+        ),
+    }
+}
+
+fn jexprs(es: &[Expr]) -> String {
+    let parts: Vec<String> = es.iter().map(jexpr).collect();
+    format!("[{}]", parts.join(","))
+}
+
+fn jitems(items: &[ListItem]) -> String {
+    let parts: Vec<String> =
+        items
+            .iter()
+            .map(|ListItem{expr, is_spread}| format!(
+                "{{\"e\":{},\"spread\":{}}}", jexpr(expr), jbool(*is_spread),
+            ))
+            .collect();
+    format!("[{}]", parts.join(","))
+}
+
+fn jopt(e: &Option<Box<Expr>>) -> String {
+    match e {
+        Some(e) => jexpr(e),
+        None => "{\"t\":\"none\"}".to_string(),
+    }
+}
+
+pub fn jexpr(e: &Expr) -> String {
+    let (raw, loc) = e;
+    let l = jloc(loc);
+    match raw {
+        RawExpr::Null => format!("{{\"t\":\"null\",\"loc\":{l}}}"),
+        RawExpr::Bool{b} =>
+            format!("{{\"t\":\"bool\",\"loc\":{l},\"b\":{}}}", jbool(*b)),
+        RawExpr::Int{n} => format!("{{\"t\":\"int\",\"loc\":{l},\"n\":{n}}}"),
+        RawExpr::Str{s, interpolation_slots} => {
+            match interpolation_slots {
+                None => format!(
+                    "{{\"t\":\"str\",\"loc\":{l},\"s\":{}}}",
+                    jbytes(s.as_bytes()),
+                ),
+                Some(slots) => format!(
+                    "{{\"t\":\"istr\",\"loc\":{l},\"parts\":{}}}",
+                    jinterp_parts(s, slots),
+                ),
+            }
+        },
+        RawExpr::Var{name} => format!(
+            "{{\"t\":\"var\",\"loc\":{l},\"name\":{}}}",
+            jbytes(name.as_bytes()),
+        ),
+        RawExpr::BinaryOp{op, op_loc, lhs, rhs} => format!(
+            "{{\"t\":\"binop\",\"loc\":{l},\"op\":\"{}\",\"oploc\":{},\"l\":{},\"r\":{}}}",
+            jop(op), jloc(op_loc), jexpr(lhs), jexpr(rhs),
+        ),
+        RawExpr::List{items, collect} => format!(
+            "{{\"t\":\"list\",\"loc\":{l},\"items\":{},\"collect\":{}}}",
+            jitems(items), jbool(*collect),
+        ),
+        RawExpr::Index{expr, location} => format!(
+            "{{\"t\":\"index\",\"loc\":{l},\"e\":{},\"i\":{}}}",
+            jexpr(expr), jexpr(location),
+        ),
+        RawExpr::RangeIndex{expr, start, end} => format!(
+            "{{\"t\":\"rindex\",\"loc\":{l},\"e\":{},\"start\":{},\"end\":{}}}",
+            jexpr(expr), jopt(start), jopt(end),
+        ),
+        RawExpr::Range{start, end} => format!(
+            "{{\"t\":\"range\",\"loc\":{l},\"start\":{},\"end\":{}}}",
+            jexpr(start), jexpr(end),
+        ),
+        RawExpr::Object{props} => {
+            let ps: Vec<String> =
+                props
+                    .iter()
+                    .map(|p| match p {
+                        PropItem::Pair{name, value} => format!(
+                            "{{\"t\":\"pair\",\"name\":{},\"value\":{}}}",
+                            jexpr(name), jexpr(value),
+                        ),
+                        PropItem::Single{expr, is_spread, collect} => format!(
+                            "{{\"t\":\"single\",\"e\":{},\"spread\":{},\"collect\":{}}}",
+                            jexpr(expr), jbool(*is_spread), jbool(*collect),
+                        ),
+                    })
+                    .collect();
+            format!(
+                "{{\"t\":\"object\",\"loc\":{l},\"props\":[{}]}}",
+                ps.join(","),
+            )
+        },
+        RawExpr::Prop{expr, name, type_prop} => format!(
+            "{{\"t\":\"prop\",\"loc\":{l},\"e\":{},\"name\":{},\"tp\":{}}}",
+            jexpr(expr), jbytes(name.as_bytes()), jbool(*type_prop),
+        ),
+        RawExpr::Func{args, collect_args, stmts} => format!(
+            "{{\"t\":\"func\",\"loc\":{l},\"params\":{},\"collect\":{},\"body\":{}}}",
+            jexprs(args), jbool(*collect_args), jblock(stmts),
+        ),
+        RawExpr::Call{func, args} => format!(
+            "{{\"t\":\"call\",\"loc\":{l},\"f\":{},\"args\":{}}}",
+            jexpr(func), jitems(args),
+        ),
+    }
+}
+
+// The pieces of an interpolated string, split at the slot boundaries the
+// lexer recorded. The boundaries are offsets in *characters* of the decoded
+// literal (that is how the lexer counts them), so the split is done on
+// characters here. Each slot's text is parsed with the expression parser.
+fn jinterp_parts(s: &str, slots: &[(usize, usize)]) -> String {
+    let chars: Vec<char> = s.chars().collect();
+    let mut parts: Vec<String> = vec![];
+    let mut last = 0;
+    let text = |a: usize, b: usize| -> Option<String> {
+        if a <= b && b <= chars.len() {
+            Some(chars[a .. b].iter().collect())
+        } else {
+            None
+        }
+    };
+    for (start, end) in slots {
+        match text(last, *start) {
+            Some(t) => parts.push(format!(
+                "{{\"t\":\"lit\",\"s\":{}}}", jbytes(t.as_bytes()),
+            )),
+            None => parts.push("{\"t\":\"badlit\"}".to_string()),
+        }
+        let slot_text =
+            if *end >= 1 { text(*start + 2, *end - 1) } else { None };
+        match slot_text {
+            Some(t) => {
+                let mut lexer = Lexer::new(&t);
+                match ExprParser::new().parse(&mut lexer) {
+                    Ok(ast) => parts.push(format!(
+                        "{{\"t\":\"slot\",\"off\":{},\"e\":{}}}",
+                        start, jexpr(&ast),
+                    )),
+                    Err(_) => parts.push(format!(
+                        "{{\"t\":\"badslot\",\"off\":{start}}}",
+                    )),
+                }
+            },
+            None => parts.push(format!(
+                "{{\"t\":\"badslot\",\"off\":{start}}}",
+            )),
+        }
+        last = *end;
+    }
+    match text(last, chars.len()) {
+        Some(t) => parts.push(format!(
+            "{{\"t\":\"lit\",\"s\":{}}}", jbytes(t.as_bytes()),
+        )),
+        None => parts.push("{\"t\":\"badlit\"}".to_string()),
+    }
+    format!("[{}]", parts.join(","))
+}
